@@ -68,6 +68,11 @@ class Minimiser:
         if time.time() > self.deadline or self.n_replays >= self.max_replays:
             return False
         self.n_replays += 1
+        if self.target is None:  # custom predicate (I5: two interpreters disagree)
+            hit = self.replay(sc, ops)
+            if hit:
+                self.last_hit = hit
+            return bool(hit)
         res = self.replay(sc, ops)
         if res.get("status") != "violation":
             return False
